@@ -51,6 +51,9 @@ class Config:
         # sharded exploration of one harness: paths are partitioned by their first `shard_depth` decisions
         self.shard = kw.get("shard")            # None | (k, n)
         self.shard_depth = kw.get("shard_depth", 48)
+        # opt-in (per obligation): decide the feasibility of sequence-free branch conditions with the LIA abstraction only
+        # (sound: a branch is only ever pruned on `unsat`; an infeasible path that survives has a false path condition)
+        self.lia_branch = kw.get("lia_branch", False)
 
 
 class Obl:
@@ -231,7 +234,7 @@ class PathCtx:
         # cheap abstraction first, then the full solver asked only for infeasibility
         can_t = not self._lia_unsat(term)
         can_f = can_t and not self._lia_unsat(nterm)
-        if can_t and can_f:
+        if can_t and can_f and not (self.cfg.lia_branch and self.seq_free(term)):
             self._cur_timeout = min(self.cfg.branch_timeout_ms, self.cfg.feas_timeout_ms, self.cfg.branch_probe_ms)
             self.solver.set("timeout", self._cur_timeout)
             r_f = self._check(nterm)
